@@ -14,6 +14,12 @@ CHECKS = {
  'C14': dict(cat='exploration', tech='relational ' + SYMX + '; round-elision for rgb chains',
    text='Every chain of up to 2 (quick) / 4 (thorough) unit switches from every start mode is executed twice by the real VM on the same symbolic registers (with and without the switches); z3 shows the transmitted colour (as a colour), the duration and the pending delay agree within one raw unit on every path pair, kelvin is unchanged, and for each of the 9 (from,to) transitions exactly the registers outside the documented table keep their values.',
    note='Registers within documented valid ranges. Chains with rgb use round-elision (unrounded values agree to 1/4, implying <=1 unit for <=3 roundings). Real arithmetic for floats.', ref='4/C14'),
+ 'C03': dict(cat='exploration', tech=SYMX + '; oracle = reference interpreter',
+   text='Routine-centred program shapes (parameter sets colliding with global names in every order, assignments to parameters/globals/locals at top level, inside if and inside repeat, nested, recursive and argument-position calls, returns from depth 0..2) are run on the real VM with symbolic arguments and globals; every variable of interest is printed before, inside and after each call and z3 shows the printed values equal the reference scoping semantics on every feasible path.',
+   note='Seeded selection from the grammar in vlib/shapes.py:routine_program (size bound 1..3 quick, ..5 thorough); recursion depth 0..3. Trusted: z3, symx, refsem scoping rules written from docs/language.rst.', ref='4/C03'),
+ 'C04': dict(cat='exploration', tech=SYMX + '; oracle = reference interpreter',
+   text='Each of the 20 loop forms alone (exhaustive over populations and break positions) and seeded nestings of two forms (optionally inside a routine) run on the real VM with symbolic counts (0..3 outer, 0..2 inner), symbolic from/to bounds and cycle starts, on 5 light populations; z3 shows the sequence of loop-variable values, light names and commands equals the documented one on every feasible path.',
+   note='Bounded counts and nesting depth 2; populations of 0..4 plain lights over 2 groups x 2 locations. Real arithmetic for the interpolation.', ref='4/C04'),
 }
 PENDING = {
 }
